@@ -158,149 +158,9 @@ def smchart_writer_fields(ctx: Ctx) -> None:
                "a path reaches the end of serialize without writing the parameter", node=call)
 
 
-def writer_item_loop(ctx: Ctx, fq: str, notes_exempt: bool) -> None:
-    """
-    C01.3/4, C02.3/5: in the item loop of a serializer every MSDParameter is built as
-      (key,)                      exactly when the value is None
-      (key, *value.split(":"))    exactly under key in MULTI_VALUE_PROPERTIES
-      (key, value)                otherwise
-    and every iteration writes its parameter.
-    """
-    p = ctx.p
-    fi = p.func(fq)
-    cfg = ctx.cfg(fi)
-    multi = multi_table(ctx)
-    loops = items_loops(fi)
-    loop = one(loops, f"'for key, value in self.items()' loop in {fq}")
-    kname, vname = loop.target.elts[0].id, loop.target.elts[1].id
-    kvar, vvar = ast.Name(id=kname, ctx=ast.Load()), ast.Name(id=vname, ctx=ast.Load())
-    forms = {"keyonly": 0, "split": 0, "plain": 0}
-    pcalls = [c for c in calls(fi) if is_msdparam(ctx, fi, c) and in_body(loop, c)]
-    # what is written must be built by MSDParameter (which escapes every component), never by hand
-    fparam_ = fi.param_names()[1] if len(fi.param_names()) > 1 else "file"
-    handmade = 0
-    for w in method_calls(fi, "write"):
-        if not (in_body(loop, w) and isinstance(w.func.value, ast.Name) and w.func.value.id == fparam_ and len(w.args) == 1):
-            continue
-        for k_, x in (string_parts(w.args[0]) or []):
-            if k_ == "expr" and isinstance(x, ast.Name):
-                for b in locals_of(fi).b.get(x.id, []):
-                    if b.kind == "assign" and b.value is not None and in_body(loop, b.node) and not any(isinstance(n, ast.Call) and n in pcalls for n in ast.walk(b.value)):
-                        handmade += 1
-                        ctx.bad("R-WS", fi, f"parameter text for the item is built by MSDParameter", f"{x.id} = {src(b.value)} under {unparse_facts(facts(ctx, fi, b.node))}: "
-                                "the text is assembled by hand, so '\\', ';' and '//' inside the value are not escaped", node=b.node)
-    sites: List[Tuple[List[ast.expr], ast.AST]] = []
-    for c in pcalls:
-        a0 = c.args[0] if len(c.args) == 1 and not c.keywords else None
-        if isinstance(a0, ast.Name):
-            tb = [b for b in locals_of(fi).b.get(a0.id, []) if b.kind == "assign"]
-            if tb and all(isinstance(b.value, (ast.Tuple, ast.List)) for b in tb) and len(tb) == len(locals_of(fi).b.get(a0.id, [])):
-                for b in tb:
-                    sites.append((list(b.value.elts), b.node))
-                continue
-        sites.append((param_elts(fi, c), c))
-    for elts, c in sites:
-        fs = facts(ctx, fi, c)
-        in_multi = fact_in_table(ctx, fi, fs, kvar, multi)
-        v_none = fact_is_none(fs, vvar)
-        where = unparse_facts(fs)
-        if not (elts and isinstance(elts[0], ast.Name) and elts[0].id == kname):
-            ctx.bad("R-TABLE", fi, f"item parameter {src(c, 50)}: key component", f"first component is {src(elts[0]) if elts else '-'}, not the item key", node=c)
-            continue
-        rest = elts[1:]
-        if not rest:
-            forms["keyonly"] += 1
-            ctx.expect("R-NULL", fi, "key-only parameter emitted only for a None value", v_none is True,
-                       where, f"(key,) is built under {where}: a real value would be dropped", node=c)
-            continue
-        if len(rest) == 1 and isinstance(rest[0], ast.Starred):
-            forms["split"] += 1
-            s = rest[0].value
-            good = (isinstance(s, ast.Call) and isinstance(s.func, ast.Attribute) and s.func.attr == "split"
-                    and isinstance(s.func.value, ast.Name) and s.func.value.id == vname
-                    and len(s.args) == 1 and not s.keywords and try_ev(ctx, fi, s.args[0]) == ":")
-            ctx.expect("R-TABLE", fi, "multi-value components are value.split(':')", good, src(s),
-                       f"components are {src(s)}; the reader joins all components with ':'", node=c)
-            ctx.expect("R-TABLE", fi, "split only under key in MULTI_VALUE_PROPERTIES", in_multi is True, where,
-                       f"value is split under {where}: an ordinary value containing ':' would lose everything after it", node=c)
-            ctx.expect("R-NULL", fi, "split receiver is not None", v_none is False, where,
-                       f"{vname}.split is reached with {vname} possibly None (key-only parameter)", node=c)
-            continue
-        if len(rest) == 1 and isinstance(rest[0], ast.Name) and rest[0].id == vname:
-            forms["plain"] += 1
-            ctx.expect("R-TABLE", fi, "single escaped component only when key not in MULTI_VALUE_PROPERTIES", in_multi is False, where,
-                       f"(key, value) is built under {where}: ATTACKS/DISPLAYBPM would be escaped instead of split", node=c)
-            ctx.expect("R-NULL", fi, "value component is not None", v_none is False, where,
-                       f"{vname} reaches MSDParameter possibly None (key-only parameter)", node=c)
-            continue
-        raise AnalysisError(f"{fq}: MSDParameter components have an unrecognised shape: {src(c)}")
-    ctx.expect("R-TABLE", fi, "multi-value items are written as separate components", forms["split"] >= 1 or handmade > 0, f"{forms['split']} split form(s)",
-               "no (key, *value.split(':')) construction in the item loop: ATTACKS/DISPLAYBPM would be escaped into one component", node=loop)
-    ctx.expect("R-TABLE", fi, "ordinary items are written as one escaped component", forms["plain"] >= 1 or handmade > 0, f"{forms['plain']} plain form(s)",
-               "no (key, value) construction in the item loop", node=loop)
-    if not pcalls:
-        raise AnalysisError(f"{fq}: no MSDParameter construction in the item loop")
-    # every iteration writes a parameter built in this iteration
-    wnodes = _param_write_nodes(ctx, fi, loop, pcalls)
-    exempt: List[int] = []
-    if notes_exempt:
-        for n in walk_body(loop):
-            if isinstance(n, ast.Continue):
-                fs = facts(ctx, fi, n)
-                if _is_notes_key_fact(ctx, fi, fs, kvar):
-                    exempt.append(cfg_node_of(cfg, fi, n))
-                else:
-                    ctx.bad("R-ORDER", fi, "continue in the item loop", f"an item is skipped under {unparse_facts(fs)}", node=n)
-    else:
-        for n in walk_body(loop):
-            if isinstance(n, (ast.Continue, ast.Break)):
-                ctx.bad("R-ORDER", fi, f"{type(n).__name__.lower()} in the item loop", f"items are skipped under {unparse_facts(facts(ctx, fi, n))}", node=n)
-    bad = loop_must_pass(cfg, loop, wnodes + exempt)
-    ctx.expect("R-ORDER", fi, "every item is written", bad is None, f"{len(wnodes)} write site(s), {len(exempt)} notes-item skip(s)",
-               "an iteration completes without writing its parameter", node=loop) if bad is None else ctx.bad(
-        "R-ORDER", fi, "every item is written", "an iteration completes without writing its parameter", node=loop, path=cfg.describe_path(bad))
-
-
 def walk_body(loop: ast.AST):
     for st in loop.body:
         yield from walk_no_nested(st)
-
-
-def _param_write_nodes(ctx: Ctx, fi: FunctionInfo, loop: Optional[ast.AST], pcalls: Sequence[ast.Call]) -> List[int]:
-    cfg = ctx.cfg(fi)
-    fparam = fi.param_names()[1] if len(fi.param_names()) > 1 else "file"
-    pnames = set()
-    for c in pcalls:
-        par = parent(fi, c)
-        if isinstance(par, ast.Assign) and len(par.targets) == 1 and isinstance(par.targets[0], ast.Name):
-            pnames.add(par.targets[0].id)
-    out = []
-    for w in method_calls(fi, "write"):
-        if not (isinstance(w.func.value, ast.Name) and w.func.value.id == fparam and len(w.args) == 1):
-            continue
-        if loop is not None and not in_body(loop, w):
-            continue
-        parts = string_parts(w.args[0])
-        if parts is None:
-            continue
-        for k, x in parts:
-            if k == "expr" and ((isinstance(x, ast.Name) and x.id in pnames) or (isinstance(x, ast.Call) and x in pcalls)):
-                out.append(cfg_node_of(cfg, fi, w))
-    return out
-
-
-def _is_notes_key_fact(ctx: Ctx, fi: FunctionInfo, fs, kvar: ast.expr) -> bool:
-    """The facts say 'this item is the notes item' by *key*."""
-    key = norm(kvar)
-    for atom, pol in fs:
-        if not pol or not isinstance(atom, ast.Compare) or len(atom.ops) != 1:
-            continue
-        l, r, op = atom.left, atom.comparators[0], atom.ops[0]
-        if isinstance(op, ast.Eq) and (norm(l) == key or norm(r) == key):
-            return True
-        if isinstance(op, ast.In) and norm(l) == key:
-            return True
-    return False
 
 
 FORMAT_WRITERS = {"sm": (BASE_SERIALIZE, CHARTS_SERIALIZE, SMCHART_SERIALIZE), "ssc": (BASE_SERIALIZE, CHARTS_SERIALIZE, SSCCHART_SERIALIZE),
@@ -388,184 +248,6 @@ def layout(ctx: Ctx) -> None:
 # SSC chart writer: notes item last, recognised by key
 
 
-def ssc_notes_item(ctx: Ctx) -> None:
-    p = ctx.p
-    ci = p.cls("simfile.ssc.SSCChart")
-    d = p.descriptors(ci).get("notes")
-    require(d is not None, "SSCChart.notes descriptor not found")
-    keyset = {d.key, d.alias} - {None}
-    ctx.expect("R-TABLE", ci, "SSCChart.notes is NOTES with alias NOTES2", (d.key, d.alias) == ("NOTES", "NOTES2"), repr(d),
-               f"declaration is {d!r}; the format's note data keys are NOTES / NOTES2")
-    fi = p.func(SSCCHART_SERIALIZE)
-    cfg = ctx.cfg(fi)
-    sn = fi.param_names()[0]
-    loop = one(items_loops(fi), f"item loop in {SSCCHART_SERIALIZE}")
-    kname = loop.target.elts[0].id
-    lnode = cfg.node_for(loop)
-    # 1. NOTEDATA written first
-    pcalls = [c for c in calls(fi) if is_msdparam(ctx, fi, c)]
-    nd = []
-    for c in pcalls:
-        el = param_elts(fi, c)
-        if el and isinstance(el[0], ast.Constant) and el[0].value == "NOTEDATA":
-            nd.append(c)
-    ndc = one(nd, f"NOTEDATA parameter in {SSCCHART_SERIALIZE}")
-    el = param_elts(fi, ndc)
-    ctx.expect("R-TABLE", fi, "NOTEDATA parameter has one empty value", len(el) == 2 and isinstance(el[1], ast.Constant) and el[1].value == "",
-               src(ndc), f"{src(ndc)}", node=ndc)
-    wn = _param_write_nodes(ctx, fi, None, [ndc])
-    ok_first = bool(wn) and all(cfg.dominates(w, lnode) for w in wn) and not any(in_body(loop, n) for n in [ndc])
-    ctx.expect("R-ORDER", fi, "NOTEDATA is written before any chart property", ok_first, "", "the NOTEDATA write does not dominate the item loop", node=ndc)
-    # 2. how the notes key is chosen
-    skip_conts = [n for n in walk_body(loop) if isinstance(n, ast.Continue)]
-    require(skip_conts, f"{SSCCHART_SERIALIZE}: no skip of the notes item inside the item loop")
-    # the key the final parameter is written under
-    post = [c for c in pcalls if c is not ndc and not in_body(loop, c)]
-    require(post, f"{SSCCHART_SERIALIZE}: no parameter written after the item loop")
-    nk_names = set()
-    for c in post:
-        raw = c.args[0]
-        if not isinstance(raw, (ast.Tuple, ast.List)) or not raw.elts or not isinstance(raw.elts[0], ast.Name):
-            raise AnalysisError(f"{SSCCHART_SERIALIZE}: final parameter has an unrecognised shape: {src(c)}")
-        nk_names.add(raw.elts[0].id)
-    nk = one(sorted(nk_names), "notes-key variable")
-    nkvar = ast.Name(id=nk, ctx=ast.Load())
-    binds = locals_of(fi).b.get(nk, [])
-    consts = set()
-    form = None
-    for b in binds:
-        if b.kind == "assign" and isinstance(b.value, ast.Constant):
-            consts.add(b.value.value)
-        elif b.kind == "assign" and isinstance(b.value, ast.Name) and b.value.id == kname:
-            form = "in-loop"
-        else:
-            raise AnalysisError(f"{SSCCHART_SERIALIZE}: binding of {nk} has an unrecognised shape")
-    if form is None and consts:
-        form = "preselected"
-    for cont in skip_conts:
-        fs = facts(ctx, fi, cont)
-        by_key = False
-        for atom, pol in fs:
-            if pol and isinstance(atom, ast.Compare) and len(atom.ops) == 1:
-                l, r, op = atom.left, atom.comparators[0], atom.ops[0]
-                if isinstance(op, ast.Eq) and {norm(l), norm(r)} == {norm(ast.Name(id=kname, ctx=ast.Load())), norm(nkvar)}:
-                    by_key = True
-                    form = form or "preselected"
-                if isinstance(op, ast.In) and norm(l) == norm(ast.Name(id=kname, ctx=ast.Load())):
-                    t = try_ev(ctx, fi, r)
-                    if t is not None and set(t) == keyset:
-                        by_key = True
-        ctx.expect("R-IDENT", fi, "the notes item is recognised by its key", by_key, unparse_facts(fs),
-                   f"the item is skipped under {unparse_facts(fs)}: not a test of the item's key against the notes key "
-                   f"(a test on the value drops every property whose value equals or is the note data)", node=cont)
-    if form == "preselected":
-        # notes_key = NOTES, rebound to the alias exactly when the alias is present and the name is not
-        ctx.expect("R-TABLE", fi, "notes key candidates == {NOTES, NOTES2}", consts == keyset, f"{sorted(consts)}",
-                   f"candidates {sorted(consts)} differ from the declared key/alias {sorted(keyset)}", node=loop)
-        for b in binds:
-            if b.kind == "assign" and isinstance(b.value, ast.Constant) and b.value.value == d.alias:
-                fs = facts(ctx, fi, b.node)
-                selfv = ast.Name(id=sn, ctx=ast.Load())
-                has_alias = _fact_contains(ctx, fi, fs, d.alias, selfv)
-                has_name = _fact_contains(ctx, fi, fs, d.key, selfv)
-                ctx.expect("R-TABLE", fi, "alias chosen exactly when present and the standard key is not",
-                           has_alias is True and has_name is False, unparse_facts(fs),
-                           f"alias is selected under {unparse_facts(fs)}; the attribute view selects it iff 'NOTES' not in self and 'NOTES2' in self",
-                           node=b.node)
-        bnodes = [cfg_node_of(cfg, fi, b.node) for b in binds if b.kind == "assign"]
-        ctx.expect("R-ORDER", fi, "the notes key is chosen before the loop on every path", cfg.must_pass(bnodes, goal=lnode) is None and not any(in_body(loop, b.node) for b in binds), "",
-                   "the item loop can be reached before the notes key is chosen", node=loop)
-    elif form == "in-loop":
-        pass  # recognised by key inside the loop (checked above)
-    else:
-        raise AnalysisError(f"{SSCCHART_SERIALIZE}: how the notes key is selected is not recognised")
-    # 3. final parameter: (notes_key, self[notes_key]) written after the loop on every path, with two newlines
-    finals = _param_write_nodes(ctx, fi, None, post)
-    after = [w for w in finals if cfg.dominates(lnode, w)]
-    bad = cfg.must_pass(after) if after else [0]
-    ctx.expect("R-ORDER", fi, "the notes item is written last on every path", bad is None, f"{len(after)} write(s) after the loop",
-               "a path leaves serialize without writing the note data after the other properties", node=loop)
-    for c in post:
-        el = param_elts(fi, c)
-        fs = facts(ctx, fi, c)
-        if len(el) == 1:
-            # key-only notes: only when the stored value is None
-            nn = _notes_value_names(fi, nk, sn)
-            isn = any(fact_is_none(fs, ast.Name(id=x, ctx=ast.Load())) is True for x in nn)
-            ctx.expect("R-NULL", fi, "key-only notes parameter only for a None value", isn, unparse_facts(fs), "", node=c)
-            continue
-        require(len(el) == 2, f"{SSCCHART_SERIALIZE}: final parameter has {len(el)} components")
-        v = el[1]
-        good_src = (isinstance(v, ast.Subscript) and isinstance(v.value, ast.Name) and v.value.id == sn and norm(v.slice) == norm(nkvar))
-        ctx.expect("R-TABLE", fi, "the last parameter carries self[notes_key]", good_src, src(v), f"value is {src(v)}", node=c)
-        raw = c.args[0].elts[1]
-        if isinstance(raw, ast.Name):
-            ng = fact_is_none(fs, raw) is False
-        else:
-            ng = False
-        ctx.expect("R-NULL", fi, "notes value is not None where it is serialized", ng, unparse_facts(fs),
-                   f"{src(raw)} (a mapping lookup, None for '#NOTES;') reaches MSDParameter unguarded", node=c)
-
-
-def ssc_skip_is_what_is_written_last(ctx: Ctx) -> None:
-    """C18.5: the item loop skips exactly the item that is written after the loop - no other key is left out of the text."""
-    p = ctx.p
-    fi = p.func(SSCCHART_SERIALIZE)
-    loop = one(items_loops(fi), f"item loop in {SSCCHART_SERIALIZE}")
-    kname = loop.target.elts[0].id
-    pcalls = [c for c in calls(fi) if is_msdparam(ctx, fi, c) and not in_body(loop, c)]
-    written = set()
-    for c in pcalls:
-        raw = c.args[0]
-        if isinstance(raw, (ast.Tuple, ast.List)) and raw.elts and isinstance(raw.elts[0], ast.Name):
-            written.add(raw.elts[0].id)
-    conts = [n for n in walk_body(loop) if isinstance(n, ast.Continue)]
-    for cont in conts:
-        fs = facts(ctx, fi, cont)
-        exact = False
-        for atom, pol in fs:
-            if pol and isinstance(atom, ast.Compare) and len(atom.ops) == 1 and isinstance(atom.ops[0], ast.Eq):
-                names = {getattr(atom.left, "id", None), getattr(atom.comparators[0], "id", None)}
-                if kname in names and (names - {kname}) <= written and len(names) == 2:
-                    exact = True
-        # in-loop selection: the skipped key itself becomes the key written last
-        for b in locals_of(fi).b.get(next(iter(written), ""), []):
-            if b.kind == "assign" and isinstance(b.value, ast.Name) and b.value.id == kname and in_body(loop, b.node):
-                if any(same_branch(fi, b.node, cont) for _ in [0]):
-                    exact = True
-        ctx.expect("R-TABLE", fi, "the only item skipped in the loop is the one written after it", exact and len(fs) == 1, unparse_facts(fs),
-                   f"items are skipped under {unparse_facts(fs)} but only '{sorted(written)}' is written after the loop: a chart holding both NOTES and NOTES2 loses one of them in the text", node=cont)
-    ctx.floor("skips in the SSC chart item loop", len(conts), 1)
-
-
-def same_branch(fi: FunctionInfo, a: ast.AST, b: ast.AST) -> bool:
-    pa, pb = parent(fi, a), parent(fi, b)
-    return pa is pb
-
-
-def _notes_value_names(fi: FunctionInfo, nk: str, sn: str) -> List[str]:
-    out = []
-    for name, bs in locals_of(fi).b.items():
-        for b in bs:
-            v = b.value
-            if b.kind == "assign" and isinstance(v, ast.Subscript) and isinstance(v.value, ast.Name) and v.value.id == sn \
-                    and isinstance(v.slice, ast.Name) and v.slice.id == nk:
-                out.append(name)
-    return out
-
-
-def _fact_contains(ctx: Ctx, fi: FunctionInfo, fs, const: str, container: ast.expr) -> Optional[bool]:
-    for atom, pol in fs:
-        if isinstance(atom, ast.Compare) and len(atom.ops) == 1 and norm(atom.comparators[0]) == norm(container):
-            v = try_ev(ctx, fi, atom.left)
-            if v == const:
-                if isinstance(atom.ops[0], ast.In):
-                    return pol
-                if isinstance(atom.ops[0], ast.NotIn):
-                    return not pol
-    return None
-
-
 # ---------------------------------------------------------------------------
 # readers
 
@@ -620,185 +302,6 @@ def _is_components_tail(e: ast.expr, pv: Sequence[str]) -> bool:
 
 
 _RAW_KEY_OK = [False]
-
-
-def reader_multi(ctx: Ctx, fmt: str = "both", raw_key_ok: bool = False) -> None:
-    _RAW_KEY_OK[0] = raw_key_ok
-    try:
-        _reader_multi(ctx, fmt)
-    finally:
-        _RAW_KEY_OK[0] = False
-
-
-def _reader_multi(ctx: Ctx, fmt: str = "both") -> None:
-    """C01.3/C02.3/C03.2: all components joined with ':' exactly under key in MULTI, first component otherwise."""
-    p = ctx.p
-    multi = multi_table(ctx)
-    for label in ("sm_simfile", "ssc_simfile", "ssc_chart"):
-        if label not in FORMAT_READERS[fmt]:
-            continue
-        fi = p.func(PARSERS[label])
-        pv = _param_vars(ctx, fi)
-        require(pv, f"{fi.fq}: no MSDParameter variable recognised")
-        joins = 0
-        values = 0
-        value_names: set = set()
-        for node in body_walk(fi.node):
-            # any read of param.components must be a recognised tail
-            if isinstance(node, ast.Attribute) and node.attr == "components" and isinstance(node.value, ast.Name) and node.value.id in pv:
-                par = parent(fi, node)
-                if isinstance(par, ast.Call) and isinstance(par.func, ast.Name) and par.func.id == "len" and par.args == [node]:
-                    continue  # counting the components is a test of presence, not a use
-                if not (isinstance(par, ast.Subscript) and _is_components_tail(par, pv)):
-                    ctx.bad("R-TABLE", fi, f"use of {src(node)}", f"{src(par) if par is not None else src(node)} is not components[1:]", node=node)
-                    continue
-                user = parent(fi, par)
-                # ":".join(tail)
-                if isinstance(user, ast.Call) and isinstance(user.func, ast.Attribute) and user.func.attr == "join" and user.args == [par]:
-                    joins += 1
-                    sep = try_ev(ctx, fi, user.func.value)
-                    fs = facts(ctx, fi, user)
-                    kvar = _key_var(fi, fs, pv)
-                    inm = _fact_in_multi(ctx, fi, fs, pv, multi)
-                    ctx.expect("R-TABLE", fi, "components re-joined with ':'", sep == ":", repr(sep), f"separator is {sep!r}, the writer splits on ':'", node=user)
-                    ctx.expect("R-TABLE", fi, "all components kept only under key in MULTI_VALUE_PROPERTIES", inm is True, unparse_facts(fs),
-                               f"join of all components happens under {unparse_facts(fs)}", node=user)
-                    present = any(pol and isinstance(a, ast.Compare) and len(a.ops) == 1 and (
-                        (isinstance(a.ops[0], ast.IsNot) and isinstance(a.comparators[0], ast.Constant) and a.comparators[0].value is None and _is_value_read(a.left, pv))
-                        or (isinstance(a.ops[0], ast.Gt) and ast.unparse(a.left) in [f"len({v}.components)" for v in pv] and try_ev(ctx, fi, a.comparators[0]) == 1))
-                        for a, pol in fs) or any((not pol) and isinstance(a, ast.Compare) and len(a.ops) == 1 and isinstance(a.ops[0], ast.Is)
-                                                 and isinstance(a.comparators[0], ast.Constant) and a.comparators[0].value is None and _is_value_read(a.left, pv) for a, pol in fs)
-                    ctx.expect("R-NULL", fi, "a key-only multi-value parameter has no value (the join needs at least one value component)", present, unparse_facts(fs),
-                               f"':'.join(components[1:]) runs under {unparse_facts(fs)}: for a key-only parameter ('#ATTACKS;') it yields '' instead of no value, so a "
-                               f"key-only ATTACKS/DISPLAYBPM does not survive a save/load cycle", node=user)
-                    tgt = parent(fi, user)
-                    if isinstance(tgt, (ast.Assign, ast.AnnAssign)):
-                        for t in (tgt.targets if isinstance(tgt, ast.Assign) else [tgt.target]):
-                            if isinstance(t, ast.Name):
-                                value_names.add(t.id)
-                elif isinstance(user, ast.Call) and callee_name(ctx, fi, user).endswith("SMChart.from_msd"):
-                    fs = facts(ctx, fi, user)
-                    isnotes = _fact_key_eq(ctx, fi, fs, pv, "NOTES")
-                    ctx.expect("R-TABLE", fi, "a chart is built from the components of a NOTES parameter", isnotes is True, unparse_facts(fs),
-                               f"SMChart.from_msd is called under {unparse_facts(fs)}", node=user)
-                else:
-                    ctx.bad("R-TABLE", fi, f"use of {src(par)}", f"components are consumed by {src(user) if user is not None else '?'}", node=node)
-            if isinstance(node, ast.Attribute) and node.attr == "value" and isinstance(node.value, ast.Name) and node.value.id in pv:
-                values += 1
-                fs = facts(ctx, fi, node)
-                inm = _fact_in_multi(ctx, fi, fs, pv, multi)
-                if _is_none_test_operand(fi, node):
-                    values -= 1
-                    continue  # 'param.value is (not) None' is a test of presence, not a use of the value
-                if inm is not False:
-                    # accepted: the read is reachable with key in MULTI only when there is no value at all
-                    from ..flow import contradictory
-                    keys_ = _key_exprs(fi, pv)
-                    kexpr = None
-                    for a_, _p in fs:
-                        for sub_ in ast.walk(a_):
-                            if isinstance(sub_, ast.Compare) and isinstance(sub_.ops[0], (ast.In, ast.NotIn)) and norm(sub_.left) in keys_:
-                                t_ = try_ev(ctx, fi, sub_.comparators[0])
-                                if t_ is not None and set(t_) == set(multi):
-                                    kexpr = sub_
-                    if kexpr is not None:
-                        assume = list(fs) + [(kexpr, isinstance(kexpr.ops[0], ast.In)), (ast.parse(f"{node.value.id}.value is not None", mode="eval").body, True),
-                                             (ast.parse(f"len({node.value.id}.components) > 1", mode="eval").body, True)]
-                        if contradictory(assume):
-                            inm = False
-                ctx.expect("R-TABLE", fi, "first component only when key not in MULTI_VALUE_PROPERTIES", inm is False, unparse_facts(fs),
-                           f"{src(node)} (first component only) is used under {unparse_facts(fs)}: further ATTACKS/DISPLAYBPM components would be lost", node=node)
-                tgt = parent(fi, node)
-                if isinstance(tgt, (ast.Assign, ast.AnnAssign)):
-                    for t in (tgt.targets if isinstance(tgt, ast.Assign) else [tgt.target]):
-                        if isinstance(t, ast.Name):
-                            value_names.add(t.id)
-        ctx.floor(f"{fi.qualname} joins", joins, 1)
-        ctx.floor(f"{fi.qualname} value reads", values, 1)
-        # stores: mapping[key] = value, key upper-cased, value from the two recognised sources
-        stores = 0
-        for node in body_walk(fi.node):
-            if isinstance(node, ast.Assign) and len(node.targets) == 1 and isinstance(node.targets[0], ast.Subscript):
-                t = node.targets[0]
-                stores += 1
-                k = inline(t.slice, fi)
-                good_key = (isinstance(k, ast.Call) and isinstance(k.func, ast.Attribute) and k.func.attr == "upper"
-                            and isinstance(k.func.value, ast.Attribute) and k.func.value.attr == "key"
-                            and isinstance(k.func.value.value, ast.Name) and k.func.value.value.id in pv)
-                if _RAW_KEY_OK[0] and isinstance(k, ast.Attribute) and k.attr == "key" and isinstance(k.value, ast.Name) and k.value.id in pv:
-                    good_key = True  # keys are upper-case by the property's domain
-                ctx.expect("R-KEYNORM", fi, f"store {src(t, 40)} uses the upper-cased key", good_key, src(k), f"store key is {src(k)}", node=node)
-                v = node.value
-                good_val = False
-                if isinstance(v, ast.Name) and v.id in value_names:
-                    vals = name_bindings_values(fi, v.id)
-                    good_val = all(x is not None and _is_value_source(x, pv) for x in vals)
-                else:
-                    good_val = _is_value_source(v, pv)
-                ctx.expect("R-TABLE", fi, f"store {src(t, 40)} keeps the parameter's value unchanged", good_val, src(v),
-                           f"stored value {src(v)} is not param.value / ':'.join(param.components[1:])", node=node)
-        ctx.floor(f"{fi.qualname} stores", stores, 2)
-
-
-def _is_value_read(x: ast.AST, pv: Sequence[str]) -> bool:
-    return isinstance(x, ast.Attribute) and x.attr == "value" and isinstance(x.value, ast.Name) and x.value.id in pv
-
-
-def _is_none_test_operand(fi: FunctionInfo, node: ast.AST) -> bool:
-    par = parent(fi, node)
-    return isinstance(par, ast.Compare) and len(par.ops) == 1 and isinstance(par.ops[0], (ast.Is, ast.IsNot)) and isinstance(par.comparators[0], ast.Constant) \
-        and par.comparators[0].value is None and par.left is node
-
-
-def _is_value_source(x: ast.expr, pv: Sequence[str]) -> bool:
-    if isinstance(x, ast.Attribute) and x.attr == "value" and isinstance(x.value, ast.Name) and x.value.id in pv:
-        return True
-    if isinstance(x, ast.Call) and isinstance(x.func, ast.Attribute) and x.func.attr == "join" and len(x.args) == 1 and _is_components_tail(x.args[0], pv):
-        return True
-    return False
-
-
-def _key_exprs(fi: FunctionInfo, pv: Sequence[str]) -> List[str]:
-    """norm() of expressions that denote the upper-cased key: param.key.upper() and locals bound to it."""
-    out = []
-    for v in pv:
-        e = ast.parse(f"{v}.key.upper()", mode="eval").body
-        out.append(norm(e))
-        if _RAW_KEY_OK[0]:
-            out.append(norm(ast.parse(f"{v}.key", mode="eval").body))
-    loc = locals_of(fi)
-    for name, bs in loc.b.items():
-        if bs and all(b.kind == "assign" and b.value is not None and norm(b.value) in out for b in bs):
-            out.append(norm(ast.Name(id=name, ctx=ast.Load())))
-    return out
-
-
-def _key_var(fi, fs, pv):
-    return _key_exprs(fi, pv)
-
-
-def _fact_in_multi(ctx: Ctx, fi: FunctionInfo, fs, pv, multi) -> Optional[bool]:
-    keys = _key_exprs(fi, pv)
-    for atom, pol in fs:
-        if isinstance(atom, ast.Compare) and len(atom.ops) == 1 and norm(atom.left) in keys and isinstance(atom.ops[0], (ast.In, ast.NotIn)):
-            t = try_ev(ctx, fi, atom.comparators[0])
-            try:
-                if t is not None and set(t) == set(multi):
-                    return pol if isinstance(atom.ops[0], ast.In) else not pol
-            except TypeError:
-                pass
-    return None
-
-
-def _fact_key_eq(ctx: Ctx, fi: FunctionInfo, fs, pv, const: str) -> Optional[bool]:
-    keys = _key_exprs(fi, pv)
-    for atom, pol in fs:
-        if isinstance(atom, ast.Compare) and len(atom.ops) == 1 and isinstance(atom.ops[0], (ast.Eq, ast.NotEq)):
-            l, r = atom.left, atom.comparators[0]
-            for a, b in ((l, r), (r, l)):
-                if norm(a) in keys and try_ev(ctx, fi, b) == const:
-                    return pol if isinstance(atom.ops[0], ast.Eq) else not pol
-    return None
 
 
 class OneOfText(str):
@@ -879,164 +382,6 @@ def sm_chart_reader(ctx: Ctx) -> None:
     good = (isinstance(a, ast.Call) and isinstance(a.func, ast.Attribute) and a.func.attr == "split" and len(a.args) == 1 and not a.keywords
             and try_ev(ctx, fs_, a.args[0]) == ":" and isinstance(a.func.value, ast.Name) and a.func.value.id == fs_.param_names()[1])
     ctx.expect("R-TABLE", fs_, "from_str splits its argument on ':' without a limit", good, src(c2), f"{src(c2)}", node=c2)
-
-
-def _is_len_cmp(ctx: Ctx, fi: FunctionInfo, atom: ast.expr, var: str, n: int, kind: str) -> bool:
-    """``len(var) < n`` (kind lt) or ``len(var) > n`` (kind gt), in either operand order, with <=/>= folded."""
-    if not (isinstance(atom, ast.Compare) and len(atom.ops) == 1):
-        return False
-    l, r, op = atom.left, atom.comparators[0], atom.ops[0]
-
-    def is_len(e):
-        return isinstance(e, ast.Call) and isinstance(e.func, ast.Name) and e.func.id == "len" and len(e.args) == 1 \
-            and isinstance(e.args[0], ast.Name) and e.args[0].id == var
-
-    if is_len(l):
-        c = try_ev(ctx, fi, r)
-        o = op
-    elif is_len(r):
-        c = try_ev(ctx, fi, l)
-        o = {ast.Lt: ast.Gt(), ast.Gt: ast.Lt(), ast.LtE: ast.GtE(), ast.GtE: ast.LtE()}.get(type(op))
-        if o is None:
-            return False
-    else:
-        return False
-    if not isinstance(c, int):
-        return False
-    if kind == "lt":
-        return (isinstance(o, ast.Lt) and c == n) or (isinstance(o, ast.LtE) and c == n - 1)
-    return (isinstance(o, ast.Gt) and c == n) or (isinstance(o, ast.GtE) and c == n + 1)
-
-
-def ssc_chart_opening(ctx: Ctx, relaxed: bool = False) -> None:
-    """C02.4: NOTEDATA closes the open chart and opens a new one; later keys go to the open chart; the last chart is appended."""
-    p = ctx.p
-    fi = p.func(PARSERS["ssc_simfile"])
-    cfg = ctx.cfg(fi)
-    pv = _param_vars(ctx, fi)
-    sn = fi.param_names()[0]
-    loops = [lp for lp in for_loops(fi) if isinstance(lp.target, ast.Name) and lp.target.id in pv]
-    lp = one(loops, f"parameter loop in {fi.fq}")
-    lnode = cfg.node_for(lp)
-    # the partial chart variable: the local that is assigned SSCChart()
-    pc = None
-    for name, bs in locals_of(fi).b.items():
-        for b in bs:
-            if b.kind == "assign" and isinstance(b.value, ast.Call) and callee_name(ctx, fi, b.value) == "simfile.ssc.SSCChart":
-                pc = name
-    require(pc is not None, f"{fi.fq}: no local is assigned a new SSCChart()")
-    pcv = ast.Name(id=pc, ctx=ast.Load())
-    binds = locals_of(fi).b[pc]
-    init_none = [b for b in binds if b.kind == "assign" and isinstance(b.value, ast.Constant) and b.value.value is None
-                 and cfg.dominates(cfg_node_of(cfg, fi, b.node), lnode) and not in_body(lp, b.node)]
-    if relaxed:
-        binds = [b for b in binds if not (b.kind == "assign" and isinstance(b.value, ast.Constant) and b.value.value is None and in_body(lp, b.node))]
-    ctx.expect("R-ORDER", fi, "no chart is open before the first NOTEDATA", len(init_none) == 1, "", f"{pc} is not initialised to None before the loop", node=lp)
-    news = [b for b in binds if b.kind == "assign" and isinstance(b.value, ast.Call)]
-    for b in news:
-        fs = facts(ctx, fi, b.node)
-        is_nd = _fact_key_eq(ctx, fi, fs, pv, "NOTEDATA")
-        extra = [a for a, pol in fs if _fact_key_eq(ctx, fi, [(a, pol)], pv, "NOTEDATA") is None]
-        ctx.expect("R-TABLE", fi, "a new chart is opened exactly on a NOTEDATA key", is_nd is True and not extra and in_body(lp, b.node), unparse_facts(fs),
-                   f"a new chart is opened under {unparse_facts(fs)}", node=b.node)
-    ctx.floor("chart openings", len(news), 1)
-    appends = [c for c in method_calls(fi, "append") if len(c.args) == 1 and isinstance(c.args[0], ast.Name) and c.args[0].id == pc
-               and isinstance(c.func.value, ast.Attribute) and self_attr(c.func.value, sn) == "charts"]
-    inl = [c for c in appends if in_body(lp, c)]
-    out = [c for c in appends if not in_body(lp, c)]
-    d_notes = p.descriptors(p.cls("simfile.ssc.SSCChart"))["notes"]
-    notes_keys = {d_notes.key, d_notes.alias} - {None}
-    for c in list(inl):
-        fs = facts(ctx, fi, c)
-        if relaxed:
-            # serialized charts end with their note data: closing the chart right after its notes item is equivalent on that text
-            keys_ = _key_exprs(fi, pv)
-            at_notes = any(pol and isinstance(a, ast.Compare) and isinstance(a.ops[0], ast.In) and norm(a.left) in keys_ and try_ev(ctx, fi, a.comparators[0]) is not None
-                           and set(try_ev(ctx, fi, a.comparators[0])) == notes_keys for a, pol in fs)
-            if at_notes and fact_is_none(fs, pcv) is False:
-                ctx.observe("R-TABLE", fi, "the chart is also closed right after its notes item", unparse_facts(fs), node=c)
-                inl.remove(c)
-                continue
-        ctx.expect("R-TABLE", fi, "the open chart is closed when the next NOTEDATA arrives",
-                   _fact_key_eq(ctx, fi, fs, pv, "NOTEDATA") is True and fact_is_none(fs, pcv) is False, unparse_facts(fs),
-                   f"in-loop append happens under {unparse_facts(fs)}", node=c)
-        # the append precedes the re-binding
-        for b in news:
-            ctx.expect("R-ORDER", fi, "close precedes the opening of the next chart",
-                       _precedes(cfg, cfg_node_of(cfg, fi, c), cfg_node_of(cfg, fi, b.node)), "", "the new chart is created before the open one is appended", node=c)
-    ctx.floor("in-loop chart close", len(inl), 1)
-    good_out = False
-    for c in out:
-        fs = facts(ctx, fi, c)
-        cn = cfg_node_of(cfg, fi, c)
-        others = [a for a, pol in fs if fact_is_none([(a, pol)], pcv) is None]
-        if fact_is_none(fs, pcv) is False and not others and cfg.dominates(lnode, cn):
-            # reached on every path after the loop when a chart is open
-            t = [n for n in cfg.dominators()[cn] if cfg.nodes[n].kind == "test" and n != cn]
-            good_out = True
-    ctx.expect("R-ORDER", fi, "the last open chart is appended after the loop", good_out, "", "no unconditional 'if chart is open: append' after the parameter loop", node=lp)
-    # stores: chart gets the key iff a chart is open
-    for node in body_walk(fi.node):
-        if isinstance(node, ast.Assign) and len(node.targets) == 1 and isinstance(node.targets[0], ast.Subscript) and isinstance(node.targets[0].value, ast.Name):
-            base = node.targets[0].value.id
-            fs = facts(ctx, fi, node)
-            nd = _fact_key_eq(ctx, fi, fs, pv, "NOTEDATA")
-            isn = fact_is_none(fs, pcv)
-            if base == pc:
-                ctx.expect("R-TABLE", fi, "a parameter after NOTEDATA goes to the open chart", nd is False and isn is False, unparse_facts(fs),
-                           f"chart store under {unparse_facts(fs)}", node=node)
-            elif base == sn:
-                ctx.expect("R-TABLE", fi, "a parameter goes to the simfile only while no chart is open", nd is False and isn is True, unparse_facts(fs),
-                           f"simfile store under {unparse_facts(fs)}: parameters after a NOTEDATA would leak into the simfile", node=node)
-    # every iteration stores somewhere (or opens a chart)
-    targets = []
-    for node in walk_body(lp):
-        if isinstance(node, ast.Assign) and len(node.targets) == 1:
-            t = node.targets[0]
-            if isinstance(t, ast.Subscript) and isinstance(t.value, ast.Name) and t.value.id in (pc, sn):
-                targets.append(cfg_node_of(cfg, fi, node))
-            if isinstance(t, ast.Name) and t.id == pc:
-                targets.append(cfg_node_of(cfg, fi, node))
-    bad = loop_must_pass(cfg, lp, targets)
-    ctx.expect("R-ORDER", fi, "every parameter is stored or opens a chart", bad is None, "", "an iteration completes without storing its parameter",
-               node=lp) if bad is None else ctx.bad("R-ORDER", fi, "every parameter is stored or opens a chart",
-                                                    "an iteration completes without storing its parameter", node=lp, path=cfg.describe_path(bad))
-
-
-def _precedes(cfg, a: int, b: int) -> bool:
-    """b is reachable from a, and a is not reachable from b without going around a loop header... (same block order)."""
-    return b in cfg.reachable(a) and (a not in cfg.reachable(b, removed=[n.id for n in cfg.nodes if n.kind == "for"]))
-
-
-def ssc_chart_reader(ctx: Ctx) -> None:
-    """SSCChart._parse: first key NOTEDATA, stop after the notes item recognised by key."""
-    p = ctx.p
-    fi = p.func(PARSERS["ssc_chart"])
-    cfg = ctx.cfg(fi)
-    pv = _param_vars(ctx, fi)
-    d = p.descriptors(p.cls("simfile.ssc.SSCChart"))["notes"]
-    keyset = {d.key, d.alias} - {None}
-    breaks = [n for n in body_walk(fi.node) if isinstance(n, ast.Break)]
-    for b in breaks:
-        fs = facts(ctx, fi, b)
-        keys = _key_exprs(fi, pv)
-        by_key = False
-        for atom, pol in fs:
-            if pol and isinstance(atom, ast.Compare) and len(atom.ops) == 1 and isinstance(atom.ops[0], ast.In) and norm(atom.left) in keys:
-                t = try_ev(ctx, fi, atom.comparators[0])
-                if t is not None and set(t) == keyset:
-                    by_key = True
-        ctx.expect("R-IDENT", fi, "parsing stops at the notes item, recognised by key", by_key, unparse_facts(fs),
-                   f"the loop stops under {unparse_facts(fs)}: not a test of the upper-cased key against {sorted(keyset)}", node=b)
-        # the store precedes the break in the same iteration
-    ctx.floor("stop at notes item", len(breaks), 1)
-    raises = [n for n in body_walk(fi.node) if isinstance(n, ast.Raise)]
-    good = False
-    for r in raises:
-        fs = facts(ctx, fi, r)
-        if _fact_key_eq(ctx, fi, fs, pv, "NOTEDATA") is False:
-            good = True
-    ctx.expect("R-TABLE", fi, "first parameter must be NOTEDATA", good, "", "no 'first key != NOTEDATA -> raise' guard", node=fi.node)
 
 
 # ---------------------------------------------------------------------------
